@@ -24,14 +24,14 @@ def showV (s : MH) : MH × String :=
   let ab := match s.abunds with
     | some ab => joinNats ab
     | none => "-"
-  (s', s!"ok num={s.num} mh={s.maxHash} tr={b2s s.trackAbundance} mins={joinNats s.mins} ab={ab} md5={showDigest d}")
+  (s', s!"ok num={s.num} mh={s.maxHash} hf={s.hf} tr={b2s s.trackAbundance} mins={joinNats s.mins} ab={ab} md5={showDigest d}")
 
 def showB (s : BT) : BT × String :=
   let (s', d) := s.md5sum
   let ab := match s.abunds with
     | some ab => joinNats (ab.map Prod.snd)
     | none => "-"
-  (s', s!"ok num={s.num} mh={s.maxHash} tr={b2s s.trackAbundance} mins={joinNats s.mins} ab={ab} md5={showDigest d}")
+  (s', s!"ok num={s.num} mh={s.maxHash} hf={s.hf} tr={b2s s.trackAbundance} mins={joinNats s.mins} ab={ab} md5={showDigest d}")
 
 def get (st : St) (i : Nat) : Option (MH × BT) := (st[i]?).join
 
@@ -130,6 +130,58 @@ def step (st : St) (line : String) : St × String :=
     | some [h, g] => match get st h, get st g with
       | some (v, b), some (ov, ob) => fin st h (v.addFrom ov) (addManyB b ob.mins)
       | _, _ => bad
+    | _ => bad
+  | ["enab", h] =>
+    match nat? h with
+    | some h => match get st h with
+      | some (v, b) =>
+        match v.enableAbundance, b.enableAbundance with
+        | .ok v', .ok b' => fin st h v' b'
+        | r1, r2 =>
+          let v' := match r1 with | .ok x => x | .error _ => v
+          let b' := match r2 with | .ok x => x | .error _ => b
+          let e1 := match r1 with | .ok _ => "0" | .error _ => "1"
+          let e2 := match r2 with | .ok _ => "0" | .error _ => "1"
+          (put st h (v', b'), s!"err vec={e1} bt={e2}")
+      | none => bad
+    | _ => bad
+  | ["disab", h] =>
+    match nat? h with
+    | some h => match get st h with
+      | some (v, b) => fin st h v.disableAbundance b.disableAbundance
+      | none => bad
+    | _ => bad
+  | ["sethf", h, c] =>
+    match nats? [h, c] with
+    | some [h, c] =>
+      if c < 1 ∨ c > 4 then bad else
+      match get st h with
+      | some (v, b) =>
+        match v.setHashFunction c, b.setHashFunction c with
+        | .ok v', .ok b' => fin st h v' b'
+        | r1, r2 =>
+          let v' := match r1 with | .ok x => x | .error _ => v
+          let b' := match r2 with | .ok x => x | .error _ => b
+          let e1 := match r1 with | .ok _ => "0" | .error _ => "1"
+          let e2 := match r2 with | .ok _ => "0" | .error _ => "1"
+          (put st h (v', b'), s!"err vec={e1} bt={e2}")
+      | none => bad
+    | _ => bad
+  | ["downmh", r, g, mx] =>
+    match nats? [r, g, mx] with
+    | some [r, g, mx] =>
+      if r < 16 then
+        match get st g with
+        | some (v, b) =>
+          match v.clone.2.downsampleMaxHash mx,
+                (if fx then b.clone.2.downsampleMaxHashFix mx else b.clone.2.downsampleMaxHash mx) with
+          | .ok v', .ok b' => fin st r v' b'
+          | r1, r2 =>
+            let e1 := match r1 with | .ok _ => "0" | .error _ => "1"
+            let e2 := match r2 with | .ok _ => "0" | .error _ => "1"
+            (st, s!"err vec={e1} bt={e2}")
+        | none => bad
+      else bad
     | _ => bad
   | ["md5", h] =>
     match nat? h with
